@@ -961,6 +961,10 @@ func (x *Exec) RunScenario(sc *Scenario) {
 			x.hashGroup(sc, &sc.Steps[i])
 			continue
 		}
+		if sc.Steps[i].Op == "ConcModel" {
+			x.concModel(sc, &sc.Steps[i])
+			continue
+		}
 		if sc.Steps[i].Op == "FloatJSONBatch" {
 			x.floatJSONBatch(sc, &sc.Steps[i])
 			continue
